@@ -31,6 +31,7 @@ import ModVerif.Proofs.ModfileSrcDir
 import ModVerif.Proofs.ModfileSrcBytes
 import ModVerif.Proofs.ModfileFmtCom
 import ModVerif.Proofs.ModfileStrictTokDir
+import ModVerif.Proofs.ModfileFmtRet2
 namespace ModVerif.Props.C02
 open ModVerif ModVerif.Modfile
 
@@ -1028,5 +1029,94 @@ example :
       | .ok _ => true
       | .error _ => false) = true) := by
   refine ⟨by decide +kernel, by decide +kernel, by decide +kernel, by decide +kernel⟩
+
+/-! ### A version fixer AND retract directives: the deferred `fixRetract` pass on the re-parse
+
+  Helper files `Proofs/ModfileFmtRet{,2}.lean`. -/
+
+open Proofs.ModfileFmtDir Proofs.ModfileEol in
+/-- ★ `format_preserves_directives_fix_partial` — clause 3 WITH a version fixer and WITH `retract` directives, second
+    half (the re-parse, including its deferred `fixRetract` pass).  `T` is the tree that is formatted (`f.Syntax`
+    after the first parse): a tree of the shape `Format` prints faithfully on which the directive layer with the
+    fixer `fx` (idempotent on its image, never the empty string) reports no error, rewrites no token and reads a
+    well-formed file `st1.file`, whose retract bounds are fixpoints of `fx` at the (non-empty) module path — they
+    are, because the first parse's `fixRetract` wrote the fixer's results into the tree and the fixer is idempotent
+    on its image.  Then the strict parser with the same fixer accepts `Format T` and reads the same values, the
+    retract intervals included: `fixRetract` finds each retract line by its identity (identities of a parsed tree
+    are pairwise distinct), the fixer sees its own image (`Proofs.ModfileFmtRet.pvi_fix_of_dontFix`), `updateLine`
+    writes back the tokens that are there (`fixRetractLoop_fixpoint`).
+    PARTIAL: the first half — that `f.syn` of `parseToFile name x (some fx) true = .ok f` satisfies these hypotheses
+    with `values st1.file = values f` — is not proved (see lean/PENDING.md); for `f.retract = []` it is
+    `format_preserves_directives_strict`. -/
+theorem format_preserves_directives_fix_partial (name : Bytes) (T : FileSyntax) (fx : Fixer) (st1 : AddState)
+    (hfix : FixOK (some fx)) (hne : FixNE (some fx))
+    (hwf : EWFStmts T.stmts) (hnl : ∀ s ∈ T.stmts, NlOK s) (hc : T.comments.before = [])
+    (ha : addStmts (some fx) true { file := { syn := T } } T.stmts = (st1, T.stmts))
+    (he : st1.errsRev = []) (hw : WellFormed st1.file)
+    (hmod : (values st1.file).retract ≠ [] → ((values st1.file).module.getD []) ≠ [])
+    (himg : ∀ vi ∈ (values st1.file).retract,
+      fx ((values st1.file).module.getD []) vi.low = .ok vi.low ∧
+      fx ((values st1.file).module.getD []) vi.high = .ok vi.high) :
+    ∃ f', parseToFile name (format T) (some fx) true = .ok f' ∧ values f' = values st1.file :=
+  Proofs.ModfileFmtRet.reparse_of_first_run_fix name T fx st1 hfix hne hwf hnl hc ha he hw hmod himg
+
+/-- ★ the key step of the theorem above: on a tree with pairwise distinct line identities in which every retract entry
+    has a line whose interval tokens the fixer leaves alone, `fixRetractLoop` changes nothing -/
+theorem fixRetractLoop_fixpoint (path : Bytes) (fx : Fixer) (rs : List Retract) (fs : FileSyntax) (e : List RuleErr)
+    (hn : Proofs.ModfileC20.NodupIds fs.stmts) (h : ∀ r ∈ rs, Proofs.ModfileFmtRet.RetFix path fx fs r) :
+    fixRetractLoop path fx rs fs e = (rs, fs, e) :=
+  Proofs.ModfileFmtRet.fixRetractLoop_fixpoint path fx rs fs e hn h
+
+/-- the situation of the theorem, evaluated with the fixer `fixStub` (symbolic versions `latest`, `master` resolve to
+    versions; its results are canonical versions, which it maps to themselves): a go.mod with a retract line, a retract
+    interval and a retract block whose versions need fixing is accepted; on the tree `f.syn` the directive layer
+    reports no error, rewrites nothing and reads the values of `f`; the retract bounds are fixpoints of the fixer at
+    the module path; and the strict parse of the formatted text with the same fixer has the same values
+    (`[v1.0.0, v1.0.0]`, `[v1.2.0, v0.0.0-2020…]`, `[v1.3.0, v1.3.0]`). -/
+example :
+    let x := B "module example.com/m\n\nretract latest // r1\nretract [v1.2, master]\nretract (\n\tv1.3.0+meta // r3\n)\n"
+    (match parseToFile (B "go.mod") x (some fixStub) true with
+     | .ok f => Proofs.ModfileFmtDir.wellFormedB f &&
+         decide (f.retract.map (·.interval) = [⟨B "v1.0.0", B "v1.0.0"⟩,
+           ⟨B "v1.2.0", B "v0.0.0-20200101000000-000000000000"⟩, ⟨B "v1.3.0", B "v1.3.0"⟩]) &&
+         (match addStmts (some fixStub) true { file := { syn := f.syn } } f.syn.stmts with
+          | (st1, ss) => decide (ss = f.syn.stmts) && st1.errsRev.isEmpty &&
+              decide (st1.file.retract.map (·.interval) = f.retract.map (·.interval)) &&
+              st1.file.retract.all (fun r =>
+                decide (fixStub (B "example.com/m") r.interval.low = .ok r.interval.low) &&
+                decide (fixStub (B "example.com/m") r.interval.high = .ok r.interval.high))) &&
+         (match parseToFile (B "go.mod") (format f.syn) (some fixStub) true with
+          | .ok f' => decide (f'.retract.map (·.interval) = f.retract.map (·.interval)) &&
+              decide (f'.module.map (·.mod.path) = f.module.map (·.mod.path))
+          | .error _ => false)
+     | .error _ => false) = true := by decide +kernel
+
+open Proofs.ModfileFmtDir in
+/-- ★ `C02_fixer_empty_string` — the hypothesis "the fixer never returns the empty string" CANNOT be dropped (item (3) of
+    lean/PENDING.md, settled negatively for the NEW version of a `replace`): with the fixer that maps every version to
+    the empty string (idempotent on its image), the strict parser accepts `replace a => b v1.0.0` as the well-formed
+    file with `Replace = [a => b ""]` and writes the empty token into the line; `Format` prints `replace a => b`,
+    which the strict parser REJECTS (a replacement without version must be a directory path).  So clause 3 fails for
+    this fixer: the formatted text of an accepted, well-formed file without retract directives is not accepted.
+    (For the OLD version the values do agree — `replace a v => b` loses the token and re-parses with the absent
+    version `""` — but a fixer returning `""` there is rejected by the path-major check unless the path has no major
+    suffix, in which case `""` fails `checkPathMajor`; so the empty string only ever survives in the new position.) -/
+theorem C02_fixer_empty_string : ∃ (fx : Fixer) (x : Bytes) (f : Modfile.File),
+    FixOK (some fx) ∧ parseToFile (B "go.mod") x (some fx) true = .ok f ∧ WellFormed f ∧ f.retract = [] ∧
+    ∀ f', parseToFile (B "go.mod") (format f.syn) (some fx) true ≠ .ok f' := by
+  have key : (match parseToFile (B "go.mod") (B "module m\nreplace a => b v1.0.0\n") (some fun _ _ => .ok []) true with
+     | .ok f => wellFormedB f && decide (f.retract = []) &&
+        (match parseToFile (B "go.mod") (format f.syn) (some fun _ _ => .ok []) true with
+         | .ok _ => false | .error _ => true)
+     | .error _ => false) = true := by decide +kernel
+  cases hp : parseToFile (B "go.mod") (B "module m\nreplace a => b v1.0.0\n") (some fun _ _ => .ok []) true with
+  | error e => simp [hp] at key
+  | ok f =>
+    simp only [hp, Bool.and_eq_true, decide_eq_true_eq] at key
+    obtain ⟨⟨h1, h2⟩, h3⟩ := key
+    refine ⟨fun _ _ => .ok [], _, f, Or.inr ⟨_, rfl, fun p v w h => h⟩, hp, wellFormedB_sound h1, h2, ?_⟩
+    intro f' hf'
+    rw [hf'] at h3
+    simp at h3
 
 end ModVerif.Props.C02
